@@ -1,6 +1,32 @@
-From LD Require Import Base F32 Data Model Ops Bucket Eval EvalFacts.
-(* first obligation; the full statements of DESIGN.md section 6 are added as they are proved *)
-Theorem C16_invalid_ctx_untouched : forall re_ok re_match o E P f,
-  run re_ok re_match o E P CInvalid f = Done (mkoutcome (err_detail KUserNotSpecified) false []).
-Proof. exact run_invalid. Qed.
-Print Assumptions C16_invalid_ctx_untouched.
+(* C16 Encoded JSON keeps the wire schema (partial: "syntactically valid JSON text" and the agreement of the four
+   encode / four decode paths are checked on the real library at run time; all paths funnel into the two functions
+   modelled here) *)
+From LD Require Import Base F32 Data Model Ops Codec CodecFacts.
+
+(* for EVERY flag value: every legacy property present with its schema type, every list an array even when empty *)
+Theorem C16_flag_schema : forall f, schema_flag (encode_flag f) = true.
+Proof. exact encode_flag_schema. Qed.
+Print Assumptions C16_flag_schema.
+
+Theorem C16_segment_schema : forall sg, schema_segment (encode_segment sg) = true.
+Proof. exact encode_segment_schema. Qed.
+Print Assumptions C16_segment_schema.
+
+(* nested items *)
+Theorem C16_clause_schema : forall c, schema_clause (enc_clause c) = true.
+Proof. exact clause_ok. Qed.
+Print Assumptions C16_clause_schema.
+Theorem C16_target_schema : forall t, schema_target (enc_target t) = true.
+Proof. exact target_ok. Qed.
+Print Assumptions C16_target_schema.
+Theorem C16_rule_schema : forall r, schema_rule (enc_rule r) = true.
+Proof. exact rule_ok. Qed.
+Print Assumptions C16_rule_schema.
+Theorem C16_rollout_schema : forall x, schema_vorr (enc_vorr_props x) = true.
+Proof. exact vorr_ok. Qed.
+Print Assumptions C16_rollout_schema.
+
+(* the schema predicate is not vacuous: it rejects an object that lacks a required list *)
+Theorem C16_schema_rejects_missing_list : schema_flag (JObj [(s "key", JStr [])]) = false.
+Proof. reflexivity. Qed.
+Print Assumptions C16_schema_rejects_missing_list.
